@@ -219,6 +219,10 @@ func owns(p string, f finding) bool {
 	_ = inact
 	content := hasProj(proj, "Mgeo", "Ageo", "R")
 	switch p {
+	case "C02":
+		// the stored runs of a row differ from what the run-level model computes (monitor findings
+		// of C02 are handled above)
+		return hasProj(proj, "S")
 	case "C03":
 		return cl["text"] && content
 	case "C04":
